@@ -11,3 +11,33 @@ def dirty(engine, payload=None):
   """Number of nodes waiting for recalculation (evidence only: how often a read-only call is issued against an
   engine that has pending work)."""
   return len(engine.recompute_map)
+
+
+# Observation of the mechanism the property is anchored in: how often a read-only call actually had side effects that
+# the engine reverted (Engine._undo_to_checkpoint with a grown action log). The wrapper only counts.
+STATE = {'reverts': 0, 'reverted_actions': 0, 'installed': False}
+
+
+def install(engine, payload=None):
+  if STATE['installed']:
+    return True
+  import engine as engine_mod
+  orig = engine_mod.Engine._undo_to_checkpoint
+  def counted(self, checkpoint):
+    try:
+      if self._get_undo_checkpoint() != checkpoint:
+        STATE['reverts'] += 1
+        STATE['reverted_actions'] += max(0, len(self.out_actions.undo) - checkpoint[2])
+    except Exception:      # pylint: disable=broad-except
+      pass
+    return orig(self, checkpoint)
+  engine_mod.Engine._undo_to_checkpoint = counted
+  STATE['installed'] = True
+  return True
+
+
+def drain(engine, payload=None):
+  out = [STATE['reverts'], STATE['reverted_actions']]
+  STATE['reverts'] = 0
+  STATE['reverted_actions'] = 0
+  return out
